@@ -83,3 +83,8 @@ M("c08-lock-adapter-aenter-nowait", "C08", SYNC, "LockAdapter.__aenter__", "    
 # from seeded change C08/f (round 3)
 M("c08-tee-fork-inherits-yielded-flag", "C08", "itertools.py", "_TeeAsyncIterator.__init__",
   "            self._link = iterable._link\n", "            self._link = iterable._link\n            self._element_yielded = iterable._element_yielded\n            return\n", ["R08-b"])
+
+# from seeded change C08/h (round 4): the exemption is no longer opt-in
+M("c08-condition-default-lock-fast-acquire", "C08", SYNC, "Condition.__init__", "        self._lock = lock or Lock()", "        self._lock = lock or Lock(fast_acquire=True)", ["R08-e"])
+M("c08-lock-fast-acquire-default-true", "C08", SYNC, "Lock.__new__", "    def __new__(cls, *, fast_acquire: bool = False) -> Lock:", "    def __new__(cls, *, fast_acquire: bool = True) -> Lock:", ["R08-e"])
+M("c08-adapter-stores-inverted-flag", "C08", SYNC, "LockAdapter.__init__", "        self._fast_acquire = fast_acquire", "        self._fast_acquire = not fast_acquire", ["R08-e"])
